@@ -317,6 +317,8 @@ StepResult(st, o, c, sc) ==
          \* not judged against the ideal layer (only the outcome alphabet and invariants); the monitor loses track
          [C |-> PutCtx(c, st.ctx, [State0 EXCEPT !.unk = TRUE]),
           why |-> IF o.oc \notin {"ok", "parse_error", "runtime_error"} THEN "outcome outside the alphabet: " \o o.oc
+                  \* a text that can only go on by running a method on an object of another module (C17)
+                  ELSE IF Has(st, "must_fail") /\ o.oc = "ok" THEN "the program completed although it calls a method on an object of another module"
                   ELSE IF ~NoResidue(o) THEN "control state left behind" ELSE ""]
     [] st.op \in {"exec", "step"} /\ Has(st, "maybe_reject") ->
          \* a text derived by cutting/corrupting a valid program: if it is rejected nothing may have changed;
@@ -332,6 +334,12 @@ StepResult(st, o, c, sc) ==
          IN  [C |-> PutCtx(c, st.ctx, Settle(r.S)),
               why |-> LET w == RunWhy([o EXCEPT !.rv = [t |-> "none"]], [S EXCEPT !.hasrv = FALSE]) IN
                       IF w # "" THEN "stepwise: " \o w ELSE ""]
+    [] st.op = "exec" /\ Has(st, "runin") ->
+         \* compiled in one context, run in a clone of it (Executable::run with another context, bloc_execute2): the run
+         \* happens in the clone; the compiling context only sees the function declarations of the text
+         LET S == RunProgram(st.ast, CtxOf(c, st.runin))
+             c1 == PutCtx(c, st.runin, Settle(S))
+         IN  [C |-> PutCtx(c1, st.ctx, DeclFuncs(st.ast, CtxOf(c1, st.ctx))), why |-> RunWhy(o, S)]
     [] st.op \in {"exec", "step", "execsaved"} ->
          IF Has(st, "reject") THEN \* a text the generator made invalid: must be rejected, context untouched
               [C |-> c, why |-> IF o.oc # "parse_error" THEN "an invalid text was not rejected: " \o o.oc
